@@ -861,7 +861,9 @@ func checkVariant(s *QSpec, o ropt, l *localStats, info *variantInfo) {
 		return
 	} else if d, det := compareSpecLeaves(s, ref); d != "" {
 		atomic.AddInt64(&info.selfReject, 1)
-		info.once.Do(func() { info.example = fmt.Sprintf("%s rendered as %q: recogniser reads %s (%s)", s.goExpr(), text, ref.goExpr(), det) })
+		info.once.Do(func() {
+			info.example = fmt.Sprintf("%s rendered as %q: recogniser reads %s (%s)", s.goExpr(), text, ref.goExpr(), det)
+		})
 		return
 	}
 	l.states++
@@ -881,7 +883,9 @@ func checkVariant(s *QSpec, o ropt, l *localStats, info *variantInfo) {
 				for _, r := range witnessRecords(query.VerifTree(q), query.VerifTree(t.q)) {
 					if q.MatchesAccessor(r) != t.q.MatchesAccessor(r) {
 						atomic.AddInt64(&info.meaningDiff, 1)
-						info.once2.Do(func() { info.example2 = fmt.Sprintf("%q parses to %s, expected the meaning of %s", text, dumpTree(query.VerifTree(t.q)), s.goExpr()) })
+						info.once2.Do(func() {
+							info.example2 = fmt.Sprintf("%q parses to %s, expected the meaning of %s", text, dumpTree(query.VerifTree(t.q)), s.goExpr())
+						})
 						break
 					}
 				}
